@@ -267,6 +267,12 @@ def run_value_part(n_examples, seed, stats, report):
     }
     field_and_value = st.sampled_from(sorted(fields)).flatmap(lambda f: st.tuples(st.just(f), st.one_of(st.none(), fields[f])))
 
+    def has_surrogate(x):
+        return isinstance(x, str) and any(0xD800 <= ord(ch) <= 0xDFFF for ch in x)
+
+    surrogate_chars = st.characters(min_codepoint=0xD800, max_codepoint=0xDFFF)
+    lone_surrogate_strs = st.tuples(st.text(max_size=3), surrogate_chars, st.text(max_size=3)).map(lambda t: t[0] + t[1] + t[2])
+
     bad_args = st.one_of(
         st.just(float("nan")), st.just(float("inf")), st.just(-float("inf")),
         st.integers(min_value=2**64, max_value=2**70), st.integers(min_value=-(2**70), max_value=-(2**63) - 1),
@@ -274,6 +280,10 @@ def run_value_part(n_examples, seed, stats, report):
         st.tuples(st.integers(), st.integers()), st.complex_numbers(allow_nan=False, allow_infinity=False),
         st.just([1, "a"]), st.just([1.5, 2]), st.just([True, 1]), st.just(["a", None, 2.0]), st.sets(st.integers(), max_size=2),
         st.just(object()),
+        # strings that are not valid Unicode text (lone surrogates, as produced by os.fsdecode on undecodable bytes) cannot be
+        # converted to the engine's UTF-8 strings: they must be rejected, not silently rewritten
+        lone_surrogate_strs,
+        st.lists(st.one_of(st.text(max_size=3), lone_surrogate_strs), min_size=1, max_size=3).filter(lambda l: any(has_surrogate(x) for x in l)),
     )
 
     def mixed_int_ranges(v):
@@ -339,6 +349,11 @@ def run_value_part(n_examples, seed, stats, report):
         q = "{ Thing { i @filter(op: \"=\", value: [\"$v\"]) @output } }"
         if isinstance(bad, list):
             q = "{ Thing { li @filter(op: \"=\", value: [\"$v\"]) @output } }"
+        # string-typed variables for the string cases, so that only the conversion can reject them
+        if isinstance(bad, str):
+            q = "{ Thing { s @filter(op: \"=\", value: [\"$v\"]) @output } }"
+        if isinstance(bad, list) and any(isinstance(x, str) for x in bad) and all(isinstance(x, str) for x in bad):
+            q = "{ Thing { ls @filter(op: \"=\", value: [\"$v\"]) @output } }"
         try:
             rows = list(execute_query(OneVertexAdapter({k: None for k in fields}), schema, q, {"v": bad}))
         except BaseException as e:  # noqa: BLE001
@@ -349,6 +364,8 @@ def run_value_part(n_examples, seed, stats, report):
         kind = type(bad).__name__
         if isinstance(bad, int):
             kind = "int-outside-64-bits"
+        if has_surrogate(bad) or (isinstance(bad, list) and any(has_surrogate(x) for x in bad)):
+            kind = "str-with-lone-surrogate"
         report(f"c27:non-convertible-argument-accepted|{kind}", f"argument {bad!r} was accepted (rows {rows!r})", {"argument": repr(bad)})
 
     roundtrip()
@@ -455,7 +472,7 @@ def main():
                     "values compared type-exactly); rows compared type- and bit-exactly. Part B (Hypothesis): one-vertex schema, a generated value "
                     "(ints over all 64-bit boundaries, finite floats, strings, booleans, None, lists, nested lists) returned by a Python adapter "
                     "and output as-is must come back identical, the same value as an argument of `=` must select the row, non-convertible "
-                    "arguments (NaN, infinities, ints outside 64 bits, dict, bytes, tuple, complex, set, mixed lists, object()) must raise. "
+                    "arguments (NaN, infinities, ints outside 64 bits, dict, bytes, tuple, complex, set, mixed lists, object(), strings with lone surrogates) must raise. "
                     "Non-trivial: a float, a list or an int beyond i64 crossed the boundary (part A: in rows, arguments or edge parameters; "
                     "part B: the generated value), or a non-convertible argument was rejected; distinct by case / by value.",
             "samples": stats["samples"],
